@@ -121,7 +121,7 @@ impl ElixirRange {
 }
 
 /// A 64-bit integer field: bounds beyond 32 bits come back from the wire as big integers.
-fn integer_field(term: &OwnedTerm) -> Option<i64> {
+pub(crate) fn integer_field(term: &OwnedTerm) -> Option<i64> {
     match term {
         OwnedTerm::Integer(i) => Some(*i),
         OwnedTerm::BigInt(big) => {
